@@ -65,10 +65,9 @@ def check_hardcoded(tref, ins):
     if tref.kind == "bool" and v not in ("true", "false"):
         raise SpecError("hard-coded value of the wrong type (bool expected)")
     if tref.kind in ("string", "encoded_string") and ins.length is not None and ins.length.isdigit():
-        if ins.padded:
-            if len(v) > int(ins.length):
-                raise SpecError("hard-coded string longer than its padded length")
-        elif len(v) != int(ins.length):
+        # the literal must have exactly the declared length, padded or not (rule "hardcoded values of the wrong
+        # ... length"; a shorter literal in a padded field is refused by the generator as well)
+        if len(v) != int(ins.length):
             raise SpecError("hard-coded string of the wrong length")
 
 
